@@ -749,7 +749,7 @@ func writeEvidence(p *Prop, tier string, seed uint64, m *merged, nViol int, wall
 		"samples":             m.samples,
 		"events":              m.counters,
 		"worker_processes":    workers,
-		"inconclusive":        m.inconclusive,
+		"inconclusive":        append([]string{}, m.inconclusive...),
 	}
 	if m.samples == nil {
 		cov["samples"] = []any{}
